@@ -54,12 +54,21 @@ def transportsOp : List String → String
            | [rc, _, _] => if rc.startsWith "err:" then none else some "sendmail-failure-reported-as-success"
            | _ => some "sendmail-bad-report") else smChk s
       -- the recorded finding (the stub's log is a lossy String) is reported only when nothing else is wrong
-      let all := [check "stub-error-not-reported" (stubErr == "true"),
+      -- the stubs configured to fail: `<sync is_err>;<sync report>;<tokio report>` (a report as above, first item = is_err)
+      let (errFlag, errS, errA) := match stubErr.splitOn ";" with
+        | [f, a, b] => (f, a, b)
+        | _ => ("bad-report", "", "")
+      let stubErrChk (s : String) : Option String :=
+        match stubChk s with
+        | some "stub-send-failed" => some "stub-error-not-reported"
+        | some "stub-envelope-differs" => some "failing-stub-did-not-record-the-message"
+        | r => r
+      let all := [check "stub-error-not-reported" (errFlag == "true"),
                   fileChk fileS, fileChk fileA, smChk' smS, smChk' smA]
-      let stub := [stubChk stubS, stubChk stubA].findSome? id
+      let stub := [stubChk stubS, stubChk stubA, stubErrChk errS, stubErrChk errA].findSome? id
       let fs := (fileS.splitOn ":").take 2
       let fa := (fileA.splitOn ":").take 2
-      let differ := if stubS != stubA || fs != fa || smS != smA then some "sync-and-async-variants-differ" else none
+      let differ := if stubS != stubA || errS != errA || fs != fa || smS != smA then some "sync-and-async-variants-differ" else none
       let others := all.findSome? id
       let stubOther := match stub with
         | some e => if e == "stub-log-is-not-the-octets" then none else some e
